@@ -364,7 +364,7 @@ def c31(ctx):
     rng = random.Random(ctx["seed"] * 7919 + 31)
     rundir = ctx["rundir"]
     names = list(HOSTILE_NAMES)
-    n = 3000 if ctx["thorough"] else 60
+    n = 1500 if ctx["thorough"] else 60
     while len(names) < n:
         k = rng.randrange(5)
         if k == 0:
@@ -568,7 +568,7 @@ def c32(ctx):
     part = Part(ctx)
     rng = random.Random(ctx["seed"] * 7919 + 32)
     rundir = ctx["rundir"]
-    n = 3000 if ctx["thorough"] else 40
+    n = 1500 if ctx["thorough"] else 40
     for i in range(n):
         work = os.path.join(rundir, "c32", "c%d" % i)
         os.makedirs(work)
